@@ -73,6 +73,27 @@ def oracleTxDecide (ps : List (Bool × SigStatus)) : String :=
       isValidator := fun c => vals.contains c, authority := 99, mainnet := true }
   if admitOraclePriceTx st rs then "accept" else "reject"
 
+/-- operator message (harness/dom_auth_opmsg.go): kind, signature status, eq = from-field = signer,
+    pe / pa = Info.EarningsAddr / Info.ApproveAddr equal the signer, ok = the handler's own conditions hold;
+    answer: `accept:<owners of the records written>` | `reject` -/
+def opMsgDecide (kind sig : String) (eq pe pa ok : Bool) : String :=
+  let m : Option OpMsg := match kind with
+    | "RegisterOperator" => some .registerOperator | "OptIntoAVS" => some .optIntoAVS
+    | "OptOutOfAVS" => some .optOutOfAVS | "SetConsKey" => some .setConsKey | _ => none
+  let sg : Option SigStatus := match sig with
+    | "valid" => some .valid | "forged" => some .forged | "nopub" => some .noPubKey | _ => none
+  match m, sg with
+  | some m, some sg =>
+    let r : Request := { callerAddress := 0, origin := if eq then 10 else 11, arg0 := 10, sig := sg }
+    let p : OpPayload := { earnings := if pe then 10 else 12, approve := if pa then 10 else 13 }
+    if admitOpMsg r ok then
+      let name (a : Addr) : String :=
+        if a == r.origin then "signer" else if a == p.earnings then "earnings"
+        else if a == p.approve then "approve" else "other"
+      "accept:" ++ joinWith "," ((opMsgRecordKeys m r p).map name)
+    else "reject"
+  | _, _ => "bad-op"
+
 def step (u : Unit) (w : List String) : Unit × String :=
   match w with
   | ["auth.reset"] => (u, "ok")
@@ -80,6 +101,8 @@ def step (u : Unit) (w : List String) : Unit × String :=
     match oracleTxPairs rest with
     | some ps => (u, oracleTxDecide ps)
     | none => (u, "bad-op")
+
+  | ["auth.opmsg", kind, sig, eq, pe, pa, ok] => (u, opMsgDecide kind sig (b eq) (b pe) (b pa) (b ok))
   | "auth.note" :: _ => (u, "ok")
   | ["auth.task", ph, sig, eq, same, isOp, ok] => (u, taskDecide ph sig (b eq) (b same) (b isOp) (b ok))
   | ["auth.challenge", ok] => (u, if admitChallenge exStateD { callerAddress := 50, origin := 50, arg0 := 61, sig := .valid } (b ok) then "accept" else "reject")
